@@ -38,6 +38,10 @@ CLAIMED = {
         text="Theorems: for every binary operator of OPERATOR_MAP (re-translated from maps.py on each run) and all operand values, whenever the OpenQASM specification (Spec.spec_binop: arithmetic on mathematical integers / binary64 with bools as 0/1, comparisons and && || ! yielding bool, bitwise and shifts on integers) assigns a value, the model's Python-semantics operator yields the same number; unary table; uint[n] stores are z mod 2^n within [0,2^n), int[n] stores accept exactly [-2^(n-1), 2^(n-1)-1] and otherwise raise ValidationError, bool stores truthiness, for every width n>=1; the model's conversion refines the specification's store for every declared type; compound assignment uses the operator of its name. Tie: model vs real pyqasm on every (width x boundary literal) declaration, every operator on a grid of literals, unary operators, float->int stores, and random typed expression trees observed through gate angles, register indices, loop bounds, branch decisions and compound assignments; the reference semantics is evaluated on the same programs as an oracle.",
         ref="DESIGN.md §6/C07",
         note=LANG_NOTE + "Outside the theorems: int/int '/', % and >> of negatives (the property's own exclusions: specification silent), float %, ints beyond 2^53 converted to float, array elements and slices (not modelled: a change confined to analyzer.py array indexing is not detected, see DESIGN §10). ~ on a uint[n] identifier is a known finding."),
+    "C18": dict(engine="coq-lang",
+        technique="Coq theorems on the model's external-gate path (calls not named in E are treated as by plain unroll; kept calls have the stated shape; the call is still validated) + group-level meaning of a kept inverse + correspondence over all subsets E and a substitution oracle on real output",
+        text="Theorems (visitor model): a gate call whose name is not in E is processed exactly as with E empty; every statement a kept call emits is a call of the same gate with literal parameters, resolved single qubits per broadcast group and `inv @` iff the collapsed inverse flag is set; if the plain expansion of the call fails (custom or library) the kept call fails with the same error; over any group of circuit meanings a kept `inv @ g` denotes what plain unroll() expands it to. Tie: model vs real unroll(external_gates=E) for every subset E of the gate names of three structured programs and random programs with random E (modifiers x broadcast x nesting x subroutines); independent oracle on the real output: putting the gate definitions back and unrolling the kept program gives the plain unroll() of the source, and E never changes acceptance.",
+        ref="DESIGN.md §6/C18", note=LANG_NOTE + "The global statement 'unroll(E) p = unroll p when no reachable call names a gate in E' is not proved as one theorem (it needs the full interpreter induction); it rests on the per-call theorem and the correspondence. Kept programs that contain a qubit-restricted gphase or an empty if-block are not re-loaded by the substitution oracle (C03 known findings)."),
     "C02": dict(
         engine="coq-lang",
         technique="Coq theorems on the visitor model's operand resolution + exact correspondence with pyqasm on enumerated index/broadcast/alias/subroutine shapes",
